@@ -22,6 +22,15 @@ impl Shared<u8> {
       (slot.state.load(Ordering::Relaxed), *slot.data.get())
     }
   }
+  pub(crate) fn k_set_slot(&self, ticket: usize, state: u8, v: Option<u8>) {
+    let chunk = self.table[0].chunk;
+    unsafe {
+      let slot = &(&(*chunk).slots)[ticket];
+      *slot.data.get() = v;
+      slot.state.store(state, Ordering::Relaxed);
+    }
+  }
+  pub(crate) fn k_head(&self) -> (usize, usize, usize, usize) { let h = self.head.lock(); (h.cid, h.idx, h.pos, h.unpublished) }
   pub(crate) const K_SET: u8 = SET;
   pub(crate) const K_SKIP: u8 = SKIP;
   pub(crate) const K_EMPTY: u8 = EMPTY;
@@ -191,3 +200,75 @@ fn ob_mpsc_shared_window_cap2() { step_window(2); }
 #[kani::stub(Chunk::alloc, stub_chunk_alloc)]
 #[kani::unwind(10)]
 fn ob_mpsc_shared_window_cap3() { step_window(3); }
+
+/// Consumer side of the bounded MPSC on the stub table: tickets 0..k (k <= 3) are resolved, each either SET(value)
+/// or a SKIP tombstone (symbolic), ticket k is still EMPTY, the cursor stands at ticket 0.
+/// deq_run(out, max): `out` receives the SET values in ascending ticket order (per-producer FIFO), at most `max`;
+/// every visited slot - SET *and* SKIP - is reset to EMPTY with its value taken (reset-on-drain: a stale state byte
+/// would make the consumer walk past a live ticket one table lap later); the cursor, `drained` and the published
+/// progress advance by exactly the number of visited tickets; unvisited slots are untouched.
+/// deq_once: the first SET value after any leading tombstones, or Empty/InFlight without consuming a value.
+fn step_deq(run: bool) {
+  let sh = Shared::<u8>::new(3, 3, 1024);
+  let k: usize = kani::any();
+  kani::assume(k <= 3);
+  let is_set: [bool; 4] = kani::any();
+  let vals: [u8; 4] = kani::any();
+  let mut i = 0;
+  while i < 4 { if i < k { sh.k_set_slot(i, if is_set[i] { Shared::<u8>::K_SET } else { Shared::<u8>::K_SKIP }, if is_set[i] { Some(vals[i]) } else { None }); } i += 1; }
+  sh.k_set_window(k, 0, 0);
+  let mut out: Vec<u8> = Vec::new();
+  let max: usize = kani::any();
+  kani::assume(max >= 1 && max <= 3);
+  let mut got_once: Option<u8> = None;
+  let mut empty_once = false;
+  let got = if run { sh.deq_run(&mut out, max) } else {
+    match sh.deq_once() { Deq::Got(v) => { got_once = Some(v); out.push(v); 1 } Deq::Empty => { empty_once = true; 0 } Deq::InFlight => 0 }
+  };
+  let want_max = if run { max } else { 1 };
+  // reference walk
+  let mut visited = 0; let mut n = 0; let mut j = 0;
+  while j < 4 {
+    if j < k && n < want_max && visited == j {
+      if is_set[j] { assert!(out.len() > n && out[n] == vals[j]); n += 1; }
+      visited = j + 1;
+    }
+    j += 1;
+  }
+  assert!(got == n && out.len() == n);
+  let mut t = 0;
+  while t < 4 {
+    let (st, v) = sh.k_slot(t);
+    if t < visited { assert!(st == Shared::<u8>::K_EMPTY && v.is_none()); }
+    else if t < k { assert!(st == if is_set[t] { Shared::<u8>::K_SET } else { Shared::<u8>::K_SKIP } && v == if is_set[t] { Some(vals[t]) } else { None }); }
+    else { assert!(st == Shared::<u8>::K_EMPTY); }
+    t += 1;
+  }
+  let (cid, idx, pos, unpub) = sh.k_head();
+  assert!(cid == 0 && idx == visited && pos == visited);
+  let (g, p, d) = sh.k_counters();
+  assert!(g == k && d == visited && p + unpub == visited && p <= d);
+  if !run { assert!(got_once.is_some() == (n == 1)); if empty_once { assert!(visited == k); } }
+  let c_skip = visited > n; kani::cover!(c_skip);
+  let c_stop = visited < k; kani::cover!(c_stop);
+  std::mem::forget(sh);
+  kani::cover!(true, "END");
+}
+
+// @obligation id=mpsc.shared.deq_run props=C01,C02,C09 kind=step tier=quick bound="capacity 3, stub table (8-slot chunk 0); 0..=3 resolved tickets each SET(any u8) or SKIP, max in 1..=3; cursor at ticket 0"
+#[kani::proof]
+#[kani::stub(std::thread::current::current, crate::verif_k_stubs::stub_thread_current)]
+#[kani::stub(parking_lot::RawMutex::lock_slow, crate::verif_k_stubs::stub_lock_slow)]
+#[kani::stub(parking_lot::RawMutex::unlock_slow, crate::verif_k_stubs::stub_unlock_slow)]
+#[kani::stub(Chunk::alloc, stub_chunk_alloc)]
+#[kani::unwind(10)]
+fn ob_mpsc_shared_deq_run() { step_deq(true); }
+
+// @obligation id=mpsc.shared.deq_once props=C01,C02,C09 kind=step tier=quick bound="capacity 3, stub table (8-slot chunk 0); 0..=3 resolved tickets each SET(any u8) or SKIP; cursor at ticket 0"
+#[kani::proof]
+#[kani::stub(std::thread::current::current, crate::verif_k_stubs::stub_thread_current)]
+#[kani::stub(parking_lot::RawMutex::lock_slow, crate::verif_k_stubs::stub_lock_slow)]
+#[kani::stub(parking_lot::RawMutex::unlock_slow, crate::verif_k_stubs::stub_unlock_slow)]
+#[kani::stub(Chunk::alloc, stub_chunk_alloc)]
+#[kani::unwind(10)]
+fn ob_mpsc_shared_deq_once() { step_deq(false); }
